@@ -197,6 +197,12 @@ PROPS = {
         "extra": [r"sync/.*"],
         "lemmas": [],
     },
+    "C20": {
+        "fns": [],
+        "special": ["client"],
+        "lemmas": ["C14/accept-iff-equal-configuration"],
+        "lemma_select": [r"lemma/C14/accepted-only-with-the-recorded-configuration"],
+    },
     "C17": {
         "fns": fns(CHECKERS, ANY) + fns(PUBLIC_OBJ + PUBLIC_META, r"post/(outcome|fs|locks)"),
         "lemmas": ["C17/" + n for n in ("store_object", "tag_object", "delete_object",
